@@ -5,6 +5,12 @@ mod fmt;
 mod bus;
 mod c01;
 mod c02;
+mod c03;
+mod c04;
+mod c05;
+mod c14;
+mod sess;
+mod sessgen;
 mod c07;
 pub mod c13;
 mod c17;
@@ -27,6 +33,10 @@ fn main() {
     let f: fn(&mut Out, &str, &mut Rng) = match prop {
         "C01" => c01::run,
         "C02" => c02::run,
+        "C03" => c03::run,
+        "C04" => c04::run,
+        "C05" => c05::run,
+        "C14" => c14::run,
         "C07" => c07::run,
         "C13" => c13::run,
         "C17" => c17::run,
